@@ -104,3 +104,48 @@ Proof.
       destruct K as (_ & _ & _ & _ & C3 & _). exact (proj1 (C3 _ _ Fbi Abi)). }
     rewrite E6. cbn [bind]. eexists. eexists. reflexivity.
 Qed.
+
+Lemma oac_above_tip : forall s x bx bt, bfind (blocks _ _ s) x = Some bx -> bfind (blocks _ _ s) (tip _ _ s) = Some bt ->
+    b_h _ bt < b_h _ bx -> on_active_chain pstate ccmd s x = false.
+Proof.
+  intros s x bx bt Fx Ft Hlt. unfold on_active_chain, fuel_of. rewrite Fx. cbn [anc_at]. rewrite Ft.
+  assert (E1 : Z.eqb (b_h ccmd bt) (b_h ccmd bx) = false) by (apply Z.eqb_neq; lia).
+  assert (E2 : Z.ltb (b_h ccmd bt) (b_h ccmd bx) = true) by (apply Z.ltb_lt; lia).
+  rewrite E1, E2. reflexivity.
+Qed.
+
+(** C02: comparePopScore never hits an assert. From every reachable state, for every candidate (unknown, invalid, the
+    tip, on the active chain, a successor of the tip, on a fork; failing at any position next to the active chain or
+    alone) and every scorer, comparePopScore returns a verdict and never Abort. *)
+Theorem compare_total : forall base sc cr s cand,
+    reachable base s -> (forall c, cand = Some c -> exists bc, bfind (blocks _ _ s) c = Some bc) ->
+    exists s' r, c_compare sc cr s cand = Ok (s', r).
+Proof.
+  intros base sc cr s cand R Hcand. unfold c_compare, compare.
+  destruct cand as [c|]; [|eexists; eexists; reflexivity].
+  destruct (Hcand c eq_refl) as (bc & Fc). rewrite Fc.
+  pose proof (reachable_good _ _ R) as G0. pose proof G0 as (Q & C & K & T & U). pose proof Q as (W & Ta & Hn).
+  assert (G : ginv base s) by (split; [split; assumption|split; assumption]).
+  destruct (is_act_find _ _ Ta) as (bt & Ft & At). rewrite Ft.
+  destruct (is_failed ccmd bc); [eexists; eexists; reflexivity|].
+  destruct (N.eqb (tip pstate ccmd s) c); [eexists; eexists; reflexivity|].
+  destruct (on_active_chain pstate ccmd s c); [eexists; eexists; reflexivity|].
+  destruct (anc_at ccmd (blocks pstate ccmd s) (fuel_of pstate ccmd s) c (b_h ccmd bt)) as [a|] eqn:Ea;
+    [|exact (compare_fork_total base sc cr s c bc bt R Fc Ft)].
+  destruct (N.eqb a (tip pstate ccmd s)) eqn:Eat; [|exact (compare_fork_total base sc cr s c bc bt R Fc Ft)].
+  apply N.eqb_eq in Eat. subst a.
+  destruct (anc_at_sound s W _ _ _ _ Ea) as (k & Hk & Hh1 & Hh2).
+  pose proof (find_cfind _ _ _ Fc) as Cc. pose proof (find_cfind _ _ _ Ft) as Ct.
+  destruct (dep_facts s _ _ W K Ct) as (D1 & _ & _).
+  assert (Hkd : Z.of_nat k <= dep s c) by (unfold dep in *; lia).
+  destruct (apply_gen base s (tip _ _ s) c k (core bc) Q G Cc Hk Hkd) as (s1 & ok & E & _).
+  { intros i Hi. destruct (up_hgt_dep s c _ i W K Cc ltac:(lia)) as (Hhi & (ei & Hei)). destruct (core_find _ _ _ Hei) as (bi & Fbi & Cbi).
+    apply (oac_above_tip s _ bi bt Fbi Ft).
+    assert (b_h ccmd bi = hgt (cores s) (up (cores s) i c)) by (unfold hgt; rewrite Hei, <- Cbi; reflexivity).
+    assert (b_h ccmd bt = hgt (cores s) (tip pstate ccmd s)) by (unfold hgt; rewrite Ct; reflexivity). lia. }
+  rewrite E. cbn [bind]. destruct ok; eexists; eexists; reflexivity.
+Qed.
+
+Theorem connect_total : forall s i par pb dup gs,
+    bfind (blocks _ _ s) par = Some pb -> bfind (blocks _ _ s) i = None -> exists s', c_connect s i par dup gs = Ok s'.
+Proof. intros s i par pb dup gs Fp Fi. unfold c_connect, connect. rewrite Fp, Fi. eexists. reflexivity. Qed.
